@@ -102,10 +102,9 @@ def run(ctx):
         "new files (Ev.ext) and - plain append mode only - another O_APPEND writer (a second router of the same build: "
         "--filename-format without <TOPIC>) may append whole records with one write(2) each (Ev.extAppend; that is what fix F46 "
         "makes every router do; before F46 (/repo 85f4c48) two routers sharing a file tore each other's records: finding two-routers-one-file, fixed, replayed on every run)",
-        "fin_owns_line_this_tree (F46 85f4c48 + F47 efaf20c are committed, ties accept only their skeletons; sealTornTail: the committed "
-        "skeleton or the one of the follow-up F47b, fixes/F47b_seal_unreadable_file.patch): on the committed shape no hypothesis (a file "
-        "the tool cannot read is a fatal exit before anything is written or FINished); ON THE F47b SHAPE the line-level torn-tail "
-        "guarantee (fin_owns_line_this_tree, fin_owns_line_fixed, restart_keeps_lines, pending_owns_line_fixed, shared_file_lines_fixed) "
+        "fin_owns_line_this_tree_partial (F46 85f4c48 + F47 efaf20c + F47b 73f7348 are committed, ties accept only their skeletons; "
+        "sealTornTail: only the skeleton of F47b, Tie.ToolsToFile.tree_seal_read_warns): the line-level torn-tail "
+        "guarantee (fin_owns_line_this_tree_partial, fin_owns_line_fixed, restart_keeps_lines, pending_owns_line_fixed, shared_file_lines_fixed) "
         "holds under the hypothesis ReadsOk: every existing file the tool appends to is readable by it (fin_owns_line_F47b_partial) - or is "
         "empty / newline-terminated (fin_owns_line_unreadable_partial); refuted without: fin_owns_line_F47b_full_false (write-only torn file "
         "\"A\" + message \"B\" -> \"AB\\n\", B FINished; replayed on the real router on every run: scenario unreadable-torn, reported as the "
@@ -174,13 +173,15 @@ def run(ctx):
             ops = open(os.path.join(out, "tofile.ops")).read().splitlines()
             impl = open(os.path.join(out, "tofile.impl")).read().splitlines()
             # the model runs with the committed shapes oneWrite = sealsTail = 1 (F46, F47), not with what the harness probed
-            # round 11: sealReadWarns = the shape of the regenerated sealTornTail skeleton (committed F47 / F47b); the probe must agree
+            # round 11 (F47b = /repo 73f7348 committed): sealReadWarns = 1; the regenerated skeleton and the probe must both say 1
             srw_seen = set()
             probed = c19_lines.committed_shape_ops(os.path.join(out, "tofile.ops"), os.path.join(out, "tofile.model.ops"), srw_seen)
             srw = c19_lines.seal_read_warns_from_gen()
-            if srw is None or srw_seen - {str(srw)}:
-                corr_broken.append("probe of sealTornTail on an unreadable file (real updateFile()): sealReadWarns = %s, regenerated skeleton: %s "
-                                   "(accepted: 0 = committed F47, 1 = F47b; probe = skeleton)" % (sorted(srw_seen), srw))
+            if srw != 1 or srw_seen - {"1"}:
+                msg = ("probe of sealTornTail on an unreadable file (real updateFile()): sealReadWarns = %s, regenerated skeleton: %s "
+                       "(accepted: only 1 = F47b = /repo 73f7348 for both; 0 = F47 alone, F47b reverted)" % (sorted(srw_seen), srw))
+                if msg not in corr_broken:
+                    corr_broken.append(msg)
             ctx.corr["seal_read_warns"] = {"probe": sorted(srw_seen), "regenerated_skeleton": srw}
             if probed - {("1", "1")}:
                 corr_broken.append("probe of router()/updateFile() on the real code: (one_write, seals_tail) = %s, expected (1, 1) "
